@@ -251,6 +251,12 @@ class Env:
                 nested[actor] = nact
             sp.cover('nested-dispatch')
             self.do_dispatch(other, nargs, nkwargs, nested, where)
+        elif act in ('disp unknown', 'disp back'):
+            # third level: a callback of the nested dispatch dispatches again - an event nobody listens to, or the
+            # event of the outermost dispatch, whose loop is still running two levels up
+            ev = 'unknown' if act == 'disp unknown' else ('e2' if fr.event == 'e1' else 'e1')
+            sp.cover('nested-dispatch-depth-3')
+            self.do_dispatch(ev, (object(),), {}, {}, where)
         self.check_membership(where + 'after the nested action')
 
     # ---- oracle for one dispatch() call
@@ -358,9 +364,10 @@ def h_history(sp, n=3, build=False, steps=3, menu=('none', 'rm self', 'rm next',
                 sp.cover('dispatch-after-active-dispatch')
             env.nested_plan = None
             if nested and 'disp' in actions.values():
-                k = sp.choose(1 + 3 * n, 'nested-plan%d' % step)
+                k = sp.choose(1 + 5 * n, 'nested-plan%d' % step)
                 if k:
-                    env.nested_plan = ((k - 1) // 3, ('rm self', 'rm next', 'add next')[(k - 1) % 3])
+                    env.nested_plan = ((k - 1) // 5, ('rm self', 'rm next', 'add next', 'disp unknown',
+                                                      'disp back')[(k - 1) % 5])
             args, kwargs = env.make_args(shape, 'd%d' % step)
             env.do_dispatch(event, args, kwargs, actions, '')
         env.check_membership('after step %d' % step)
@@ -757,7 +764,8 @@ FULL_MENU = ('none', 'rm self', 'rm next', 'rm prev', 'add next', 'add prev', 'd
 TIERS = {
     'quick': [
         ('history', dict(n=3, build=False, steps=3, orders=(0, 5))),
-        ('state', dict(n=3, build=True, steps=1, pre=(0, 1, 2, 3), shapes=(0, 5))),
+        ('state', dict(n=3, build=True, steps=1, pre=(0, 1, 2, 3), shapes=(0, 5)),
+         {'required': HIST_TAGS + ['nested-dispatch-depth-3']}),
         ('state', dict(n=3, build=True, steps=1, pre=(1,), menu=('none', 'rm next', 'disp'), shapes=(5,),
                        flavours=(0, 1, 2, 3)), {'required': FLAVOUR_TAGS}),
         ('state', dict(n=3, build=True, steps=1, pre=(1,), menu=('none',), shapes=(3, 4), kwnames=KWNAMES),
@@ -775,7 +783,8 @@ TIERS = {
     'thorough': [
         ('history', dict(n=3, build=False, steps=4)),
         ('state', dict(n=3, build=True, steps=1, orders=(0, 1, 2, 3, 4, 5))),
-        ('state', dict(n=3, build=True, steps=1, menu=FULL_MENU, shapes=(0, 1, 2, 3, 4, 5))),
+        ('state', dict(n=3, build=True, steps=1, menu=FULL_MENU, shapes=(0, 1, 2, 3, 4, 5)),
+         {'required': HIST_TAGS + ['nested-dispatch-depth-3']}),
         ('state', dict(n=3, build=True, steps=1, pre=(0, 1, 3), shapes=(0, 5), flavours=(0, 1, 2, 3)),
          {'required': FLAVOUR_TAGS}),
         ('history', dict(n=3, build=True, steps=2, shapes=(0, 5), pre=(0, 2, 3), orders=(0, 5))),
@@ -809,7 +818,7 @@ RULE = ('one evaluation = one feasible path (distinct by construction); non-triv
 BOUNDS = {
     'quick': 'history: 3 handlers (classes HA, HB, HC(HA)), events e1,e2,unknown, ops add / remove / dispatch / clear(); H(3) from empty with 5 nested '
              'actions, 3 argument shapes, listener order h0<h1<h2 and its reverse; I: 4 registration histories per '
-             'handler + 1 op with 5 nested actions, 2 shapes; nesting depth 2; I (all registered) + 1 op with every handler '
+             'handler + 1 op with 5 nested actions, 2 shapes; nesting depth 3 (the third level dispatches an event without listeners or the outermost event again); I (all registered) + 1 op with every handler '
              'instance plain / __bool__ False / __len__ 0 / __eq__ always True (4^3 combinations, 3 actions, 1 shape).  '
              'keyword names: 1 op on the all-registered state with one keyword drawn from 9 plausible payload names; '
              'double add / clear: 2 handlers, histories never / added twice / added, clear(), added + 2 ops.  '
@@ -851,7 +860,7 @@ ASSUMPTIONS = [
     'callbacks with side effects are drawn for the first dispatch that has any; later dispatches of the same history '
     'have plain callbacks (keeps the decision tree independent of the order in which callbacks ran)',
 ]
-OUTSIDE = ['nesting deeper than a dispatch inside a callback of a dispatch', 'more than 3 handlers / 3 event names',
+OUTSIDE = ['nesting deeper than three dispatches (a callback of a dispatch dispatches, and a callback of that one dispatches again)', 'more than 3 handlers / 3 event names',
            'classes using __slots__', 'handlers whose __events__ is edited after registration']
 
 TECHNIQUE = 'bounded symbolic execution (symx/z3) of dispatcher histories with nested actions, symbolic payload, listener-order control; decorator programs enumerated symbolically'
